@@ -4,6 +4,7 @@ import Sourcer.Regex
 import Sourcer.Gen
 import Sourcer.Peg
 import Sourcer.Prepare
+import Sourcer.Run
 /-
   Decoding of protocol terms into model values (driver side only).
 -/
@@ -136,5 +137,62 @@ def printRes (r : Option Res) : String :=
   | some .fail => "F"
 
 def printFlags (f : Flags) : String := s!"{boolIdx f.as}{boolIdx f.cps}"
+
+end Sourcer
+
+namespace Sourcer
+open Sexp Run
+
+/-- finite description of a rule body for the `_run` correspondence: the continuation after a
+    call is a finite branching on the result id, with a default branch -/
+inductive FProg where
+  | ret (r : Nat)
+  | call (k : Nat) (branches : List (Nat × FProg)) (dflt : FProg)
+  deriving Inhabited
+
+partial def decodeFProg : Sexp → Option FProg
+  | .list [.atom "ret", r] => r.nat?.map .ret
+  | .list (.atom "call" :: k :: rest) => do
+    let k ← k.nat?
+    let rec go (xs : List Sexp) (acc : List (Nat × FProg)) : Option FProg :=
+      match xs with
+      | [.list [.atom "else", d]] => do pure (.call k acc.reverse (← decodeFProg d))
+      | .list [r, p] :: more => do go more ((← r.nat?, ← decodeFProg p) :: acc)
+      | _ => none
+    go rest []
+  | _ => none
+
+instance : Inhabited (Prog Nat Nat) := ⟨.ret 0⟩
+
+partial def FProg.toProg : FProg → Prog Nat Nat
+  | .ret r => .ret r
+  | .call k bs d => .call k fun r =>
+    match bs.find? (·.1 == r) with
+    | some (_, p) => p.toProg
+    | none => d.toProg
+
+/-- run the machine, printing the observable events (`b k` body of k begins, `s k r` k is resumed
+    with r, `r k v` k returns v) -/
+def machineTrace (body : Nat → Prog Nat Nat) (k0 : Nat) (fuel : Nat) : String := Id.run do
+  let mut s := init body k0
+  let mut out : Array String := #[]
+  for _ in [0:fuel] do
+    match s.stack with
+    | [] => break
+    | (key, g) :: _ =>
+      match g, s.pending with
+      | .fresh _, _ => out := out.push s!"b {key}"
+      | .waiting _, some r => out := out.push s!"s {key} {r}"
+      | .waiting _, none => out := out.push s!"stuck {key}"
+      match send g s.pending with
+      | some (.ret r) => out := out.push s!"r {key} {r}"
+      | _ => pure ()
+      match step body s with
+      | none => break
+      | some s' => s := s'
+  let fin := match s.stack, s.pending with
+    | [], some r => s!"done {r}"
+    | _, _ => "unfinished"
+  return " ".intercalate (out.toList ++ [fin]) ++ s!" | starts {s.starts.length}"
 
 end Sourcer
